@@ -99,13 +99,15 @@ unsigned MessageBase::extract_trailer(const f8String& from, f8String& chksum)
 }
 
 //-------------------------------------------------------------------------------------------------
-unsigned MessageBase::decode(const f8String& from, unsigned s_offset, unsigned ignore, bool permissive_mode)
+unsigned MessageBase::decode(const f8String& from, unsigned s_offset, unsigned ignore, bool permissive_mode, bool keep_trailing_unknown)
 {
 	const unsigned fsize(static_cast<unsigned>(from.size()) - ignore), npos(0xffffffff);
-	unsigned pos(static_cast<unsigned>(_pos.size())), last_valid_pos(npos);
+	unsigned pos(static_cast<unsigned>(_pos.size()));
 	const char *dptr(from.data());
 	char tag[FIX8_MAX_FLD_LENGTH], val[FIX8_MAX_FLD_LENGTH];
-	size_t last_valid_offset(0);
+	// permissive mode: start of the current run of fields that are not legal here, and the size of _unknown before it
+	unsigned run_offset(npos);
+	size_t run_unknown_sz(0);
 
 	for (unsigned result; s_offset <= fsize && (result = extract_element(dptr + s_offset, fsize - s_offset, tag, val));)
 	{
@@ -117,10 +119,10 @@ unsigned MessageBase::decode(const f8String& from, unsigned s_offset, unsigned i
 unknown_field:
 			if (permissive_mode)
 			{
-				if (last_valid_pos == npos)
+				if (run_offset == npos)
 				{
-					last_valid_pos = pos;
-					last_valid_offset = s_offset;
+					run_offset = s_offset;
+					run_unknown_sz = _unknown.size();
 				}
 				_unknown.append(dptr + s_offset, result);
 				s_offset += result;
@@ -128,6 +130,7 @@ unknown_field:
 			}
 			break;
 		}
+		run_offset = npos; // a field of this message part follows: the run before it is passed through here
 		s_offset += result;
 		if (itr->_field_traits.has(FieldTrait::present))
 		{
@@ -144,7 +147,7 @@ unknown_field:
 			itr->_field_traits.set(FieldTrait::present);
 			// check if repeating group and num elements > 0
 			if (itr->_field_traits.has(FieldTrait::group) && has_group_count(bf))
-				s_offset = decode_group(nullptr, tv, from, s_offset, ignore);
+				s_offset = decode_group(nullptr, tv, from, s_offset, ignore, permissive_mode);
 
 			if (itr->_ftype != FieldTrait::ft_Length || tv == Common_BodyLength) // this type expects next field to be data
 				break;
@@ -183,12 +186,18 @@ unknown_field:
 		throw MissingMandatoryField(ostr.str());
 	}
 
-	return permissive_mode && last_valid_pos == pos ? static_cast<unsigned>(last_valid_offset) : s_offset;
+	if (run_offset != npos && !keep_trailing_unknown)
+	{
+		// a trailing run belongs to whatever follows this message part: give it back
+		_unknown.resize(run_unknown_sz);
+		return run_offset;
+	}
+	return s_offset;
 }
 
 //-------------------------------------------------------------------------------------------------
 unsigned MessageBase::decode_group(GroupBase *grpbase, const unsigned short fnum, const f8String& from,
-	unsigned s_offset, unsigned ignore)
+	unsigned s_offset, unsigned ignore, bool permissive_mode)
 {
 	unsigned result;
 	if (!(grpbase = find_add_group(fnum, grpbase)))
@@ -204,6 +213,12 @@ unsigned MessageBase::decode_group(GroupBase *grpbase, const unsigned short fnum
 		for (unsigned pos(0); s_offset < fsize && (result = extract_element(dptr + s_offset, fsize - s_offset, tag, val));)
 		{
 			const unsigned tv(tag_value(tag));
+			if (permissive_mode && (tv > 0xffff || !_ctx.find_be(tv)))	// not in the dictionary: pass through with this element
+			{
+				grp->_unknown.append(dptr + s_offset, result);
+				s_offset += result;
+				continue;
+			}
 			if (tv > 0xffff)	// not a field number: end of repeats, the caller deals with it
 			{
 				ok = false;
@@ -226,7 +241,7 @@ unsigned MessageBase::decode_group(GroupBase *grpbase, const unsigned short fnum
 			grp->_fp.set(tv, itr, FieldTrait::present);	// is present
 			// nested group (check if not zero elements)
 			if (grp->_fp.is_group(tv, itr) && has_group_count(bf))
-				s_offset = grp->decode_group(grpbase, tv, from, s_offset, ignore);
+				s_offset = grp->decode_group(grpbase, tv, from, s_offset, ignore, permissive_mode);
 		}
 
 		const unsigned short missing(grp->_fp.find_missing());
